@@ -184,6 +184,7 @@ func lifeMain(args []string) error {
 	par := fs.Int("par", 16, "scenarios in flight")
 	settle := fs.Int("settle", 5000, "ms to wait after the last scenario before the first leak snapshot")
 	idle := fs.Int("idle", 0, "ms to wait additionally (idle timeout of silent connections) before the final snapshot")
+	idleMax := fs.Int("idlemax", 0, "keep waiting (polling every 3 s) up to this many ms for the process to become quiescent")
 	fs.Parse(args)
 	quietLogs()
 	defer cleanupScratch()
@@ -268,12 +269,35 @@ func lifeMain(args []string) error {
 	time.Sleep(1000 * time.Millisecond)
 	h2 := takeSnapshot()
 	var final lifeSnapshot
+	quiescent := func(s lifeSnapshot) bool {
+		if s.Handlers > 0 {
+			return false
+		}
+		for k, n := range s.Goroutines {
+			if n > base.Goroutines[k] {
+				return false
+			}
+		}
+		return true
+	}
+	waited := 0
 	if *idle > 0 {
 		time.Sleep(time.Duration(*idle) * time.Millisecond)
+		waited = *idle
 		final = takeSnapshot()
+		// handlers may legitimately need more than one timeout in a row (a passive data connection
+		// that never comes, then the idle timeout): bounded, so wait on - up to idlemax
+		for !quiescent(final) && waited < *idleMax {
+			time.Sleep(3 * time.Second)
+			waited += 3000
+			final = takeSnapshot()
+		}
 	} else {
 		final = h2
 	}
+	heldOpenMu.Lock()
+	held := len(heldOpen)
+	heldOpenMu.Unlock()
 	fatal := 0
 	for _, e := range hub.Since(0) {
 		if e.Map["type"] == "fatal" {
@@ -291,7 +315,8 @@ func lifeMain(args []string) error {
 	}
 	sort.Strings(keys)
 	o.Put(map[string]interface{}{"baseline": base, "after_settle": afterSettle, "idle1": h1, "idle2": h2, "final": final,
-		"probe_ok": probeOK, "recovered_panics": fatal, "scenarios": len(scs), "results": results})
+		"probe_ok": probeOK, "recovered_panics": fatal, "scenarios": len(scs), "results": results,
+		"held_open_by_lab": held, "waited_ms": waited})
 	note("written")
 	return nil
 }
